@@ -344,13 +344,29 @@ def client_mapping(chk, p, S, tab, R="R7 client mapping", K="R7"):
         ok = False
         wit = "get_assertion await not found"
         if aws:
-            du = flow.DefUse(au)
-            for t in flow.try_sites(au):
-                term = flow.simplify_term(T.operand({"k": "copy", "place": {"l": t["operand"][0], "p": [], "s": ""}}, t["branch_bb"], "t")) if t["operand"] else None
-                if term and term[0] == "call" and names.is_(term[1], "Result::map_err") and term[2][0][0] == "await" and names.is_(term[2][0][1], "Authenticator::get_assertion"):
-                    f = term[2][1]
-                    wit = "error mapped with %s" % flow.term_str(f)
-                    # Into::<WebauthnError>::into passed as a function item, or a closure calling it
-                    ok = (f[0] == "const" and isinstance(f[1], str) and "Into" in f[1] and "WebauthnError" in f[1]) or \
-                         (f[0] == "closure" and any(names.call_is(t2, "Into::into", "From::from") and "WebauthnError" in (t2.get("callee_full") or "") for bb2, t2 in p.bodies[f[1]].calls()))
+            # the error of the awaited get_assertion, as it leaves authenticate: the value on the failure side of whatever
+            # test is applied to it (`map_err(f)?`, `match`, ...) in normal form must be conv(error) with conv the
+            # From<StatusCode> for WebauthnError conversion (also spelled Into::into)
+            from . import normal
+            N = normal.Normalizer(p, summary.Summaries(p))
+            is_ga = flow.await_pred(aws[0])
+            ok_e, bad_e = flow.success_edges(p, au, is_ga, T)
+            convs = []
+            for sb in sorted({sb for sb, sc in ok_e + bad_e}):
+                term = N.norm(T.operand(au.term(sb)["op"], sb, "t"))
+                subj = term[1] if term[0] == "discr" else term
+                if isinstance(subj, tuple) and subj and subj[0] == "gamma":
+                    for l, v in subj[2]:
+                        if isinstance(v, tuple) and len(v) == 4 and v[0] == "agg" and v[2] == "Err":
+                            convs.append(dict(v[3]).get("0"))
+                elif is_ga(subj):
+                    convs.append(("errpayload", subj))  # tested directly: the conversion is whatever `?`/the arm applies
+
+            def is_conv(x):
+                if not (isinstance(x, tuple) and len(x) == 4 and x[0] == "call" and len(x[2]) == 1 and x[2][0][0] == "errpayload" and is_ga(x[2][0][1])):
+                    return False
+                nm = x[1]
+                return ("WebauthnError" in nm and ("From" in nm or "Into" in nm or nm.endswith("::from") or nm.endswith("::into"))) or (nm in p.bodies and "From<passkey_types::ctap2::error::StatusCode>" in nm and "WebauthnError" in nm)
+            wit = "error of get_assertion leaves as %s" % [flow.term_str(x)[:140] for x in convs]
+            ok = bool(convs) and all(is_conv(x) for x in convs)
         chk.ob(R, K + "|Client::authenticate|uses-conversion", ok, where(au), wit)
